@@ -165,3 +165,19 @@ Example redi_example :
      [mkRtx 0 (mkGene (-1) 10 60) [(10, 30); (40, 60)]; mkRtx 1 (mkGene (-1) 10 60) [(10, 20); (40, 60)]]
   = Ok [(0, 35, 65, 71)].
 Proof. vm_compute. reflexivity. Qed.
+
+(* ---- code-level tie (docs/py2coq.md): the BODY of REDItoolsRecord.get_valid_subs (RNA coverage, DNA coverage with
+        the -1 / None cases, per-substitution read count and frequency thresholds, KeyError / IndexError /
+        ZeroDivisionError paths), translated from /repo's current source by harness/translate/py2coq.py into
+        coq/Gen/Py_REDItoolsParser.v on every run, is extensionally equal to the model function. ---- *)
+From MoPep Require Gen.Py_REDItoolsParser.
+From MoPep Require Import Proofs.Py2CoqVepProofs.
+
+Theorem code_get_valid_subs_translated : Py_REDItoolsParser.py_get_valid_subs_untranslated = false.
+Proof. vm_compute. reflexivity. Qed.
+Print Assumptions code_get_valid_subs_translated.
+
+Theorem code_get_valid_subs_is_model : forall th r,
+  Py_REDItoolsParser.py_get_valid_subs th r = get_valid_subs th r.
+Proof. exact code_get_valid_subs_is_model_l. Qed.
+Print Assumptions code_get_valid_subs_is_model.
